@@ -85,4 +85,42 @@ fn new_with_options(s: Str, lex_flags: LexFlags) -> (r: Result<ParsedLex, Vec<Le
     //@endbody
 }
 
+
+// ---- the start-state prefix of a rule and the escape rewriting of its regex ----
+// what the (nested) unescape() does to a regex text, as a function of the text: the POSIX-lex escape table of the
+// property ("a backslash before a character that is special neither to lex nor to the regex engine stands for that
+// character"); its char_indices scanner is not under contract, the classification regex it uses is pinned
+pub uninterp spec fn unesc(off: int, len: int) -> int;
+pub open spec fn unesc_tail(s: Str, skip: int) -> int { unesc(s.off + skip, s.len - skip) }
+//@expect file=lrlex/src/lib/parser.rs re=`Regex::new\(r"\^\(\(\[xuU\]\[\[:xdigit:\]\]\)\|\[\[:digit:\]\]\|\[afnrtv\\\\\]\|\[pP\]\|\[dDsSwW\]\|\[Az\]\)"\)\.unwrap\(\)`
+#[verifier::external_body] pub struct ReText { _x: usize }       // Cow<str>: the regex text handed to Rule::new
+impl ReText { pub uninterp spec fn v(&self) -> int; }
+#[verifier::external_body] pub fn cow_from(s: Str) -> (r: Str) ensures r == s { unimplemented!() }
+#[verifier::external_body] pub fn unescape(re: Str, flags: &LexFlags) -> (r: ReText) ensures r.v() == unesc(re.off as int, re.len as int) { unimplemented!() }
+// `re_str[1..j].split(',').map(trim).map(get_start_state_by_name).map(id).collect::<Result<Vec<usize>, _>>()`
+#[verifier::external_body] pub fn state_ids(p: &StatesParser, off: usize, names: Str) -> (r: Result<Vec<usize>, LexBuildError>) { unimplemented!() }
+pub struct StatesParser { pub lex_flags: LexFlags }
+impl StatesParser { pub fn mk_error(&self, kind: LexErrorKind, off: usize) -> (r: LexBuildError) { LexBuildError { kind, spans: vec![Span::new(off, off)] } } }
+
+impl StatesParser {
+    //@ctx parse_start_states: `re_str` is the part of a rule line before the last separator (a slice of the source)
+    fn parse_start_states(&self, off: usize, re_str: Str) -> (r: Result<(Vec<usize>, ReText), LexBuildError>)
+        requires re_str.off + re_str.len <= isize::MAX,
+        ensures
+            r matches Ok(t) ==> exists|skip: int| 0 <= skip <= re_str.len && t.1.v() == #[trigger] unesc_tail(re_str, skip), // OBL: C11.the_regex_of_every_rule_is_escape_rewritten_with_or_without_start_states
+    {
+        //@probe
+        let ghost re0_ = re_str;
+        //@body file=lrlex/src/lib/parser.rs fn=parse_start_states
+        //@rule n=* `^\s*///.*$` => ``
+        //@cut n=1 `fn unescape<'b>\(re: Cow<'b, str>, lex_flags: &'_ LexFlags\) -> Cow<'b, str> \{` =>>
+        //@end
+        //@rule n=* `&?\bre_str\[([^\[\]]+?)\.\.\]` => `re_str.from(\1)`
+        //@rule n=1 `re_str\[1\.\.j\]\s*\.split\(','\)\s*\.map\(\|s\| s\.trim_matches\(matches_whitespace\)\)\s*\.map\(\|s\| self\.get_start_state_by_name\(off, s\)\)\s*\.map\(\|s\| s\.map\(\|ss\| ss\.id\)\)\s*\.collect::<LexInternalBuildResult<Vec<usize>>>\(\)\?` => `state_ids(self, off, re_str.sl(1, j))?`
+        //@rule n=1 `\(vec!\[\], re_str\)` => `(Vec::new(), re_str)`
+        //@rule n=* `Cow::from\(` => `cow_from(`
+        //@rule n=1 `^(\s*)Ok\(\(start_states, unescape\(` => `\1proof { let skip_ = re_str.off - re0_.off; assert(0 <= skip_ <= re0_.len && re_str.len == re0_.len - skip_); assert(unesc_tail(re0_, skip_) == unesc(re_str.off as int, re_str.len as int)); }\n\1Ok((start_states, unescape(`
+        //@endbody
+    }
+}
 //@use prelude/tail.rs
